@@ -62,7 +62,7 @@ def _uf_names(e):
             continue
         seen.add(x.get_id())
         if z3.is_app(x):
-            if x.decl().kind() == z3.Z3_OP_UNINTERPRETED and x.num_args() > 0:
+            if x.decl().kind() == z3.Z3_OP_UNINTERPRETED and (x.num_args() > 0 or z3.is_array(x)):
                 out.add(x.decl().name())
             stack.extend(x.children())
         elif z3.is_quantifier(x):
@@ -131,7 +131,7 @@ def discharge(axioms, pc, goal, timeout_ms=10000, want_model=True, st=None, use_
     # candidate counterexample: a model of the quantifier-free hypotheses (to be replayed natively)
     qf_all = [c for c in pc if not _has_quant(c)]
     if not _has_quant(goal):
-        s2, r2 = _check(axioms, qf_all, goal, min(3000, timeout_ms))
+        s2, r2 = _check(axioms, qf_all, goal, timeout_ms)
         if r2 == z3.sat:
             m = s2.model()
             return Result('candidate', 'z3-qf', time.time() - t0, model=model_summary(m), zmodel=m, detail=detail)
